@@ -59,7 +59,8 @@ func (t *Time) Compare(other Object) (int, error) {
 	if !ok {
 		return 0, errz.TypeErrorf("type error: unable to compare time and %s", other.Type())
 	}
-	if t.value == otherStr.value {
+	// Two values of the same instant are equal whatever their time zones
+	if t.value.Equal(otherStr.value) {
 		return 0, nil
 	}
 	if t.value.After(otherStr.value) {
@@ -69,7 +70,7 @@ func (t *Time) Compare(other Object) (int, error) {
 }
 
 func (t *Time) Equals(other Object) Object {
-	if other.Type() == TIME && t.value == other.(*Time).value {
+	if other.Type() == TIME && t.value.Equal(other.(*Time).value) {
 		return True
 	}
 	return False
